@@ -3797,6 +3797,24 @@ class MethodOperatorAlign(OpAlignPartitions):
         return MethodOperator(op, frame, other, *args, **kwargs)
 
 
+class ComparisonOpAlign(OpAlignPartitions):
+    """Align the partitions for DataFrame/Series.lt, le, gt, ge, eq and ne
+
+    ``op`` is the expression class (e.g. ``LTFrame``), the operands after ``op``
+    are passed on to it (``axis`` or ``level, fill_value``).
+    """
+
+    _parameters = ["frame", "other", "op"]
+
+    @functools.cached_property
+    def _meta(self):
+        return self._op(self.frame, self.op, self.other, *self.operands[3:])._meta
+
+    @staticmethod
+    def _op(frame, op, other, *args, **kwargs):
+        return op(frame, other, *args, **kwargs)
+
+
 class UFuncAlign(MaybeAlignPartitions):
     _parameters = ["frame", "func", "meta", "kwargs"]
     enforce_metadata = False
